@@ -19,10 +19,42 @@ var Noop = func(c fox.Context) {}
 var LastServed Obs
 
 // Rec is a handler that records the pattern and parameters the handler observes through its Context.
+// Every other way a handler can read the parameters (Param by name, the net/http adapters WrapF / WrapH
+// with ParamsFromContext, a Clone) must show the same values: a disagreement is appended to the observation
+// as an extra pseudo-parameter, so that it differs from every expectation.
 var Rec = func(c fox.Context) {
 	o := Obs{Found: true, Pattern: c.Pattern()}
 	for p := range c.Params() {
 		o.Params = append(o.Params, [2]string{p.Key, p.Value})
+	}
+	seen := map[string]bool{}
+	for _, kv := range o.Params {
+		if !seen[kv[0]] {
+			seen[kv[0]] = true
+			if got := c.Param(kv[0]); got != kv[1] {
+				o.Params = append(o.Params, [2]string{"!Param(" + kv[0] + ")", got})
+			}
+		}
+	}
+	check := func(name string, ps fox.Params) {
+		var got [][2]string
+		for _, p := range ps {
+			got = append(got, [2]string{p.Key, p.Value})
+		}
+		if fmt.Sprint(got) != fmt.Sprint(o.Params) {
+			o.Params = append(o.Params, [2]string{"!" + name, fmt.Sprint(got)})
+		}
+	}
+	if len(o.Params) > 0 {
+		base := append([][2]string(nil), o.Params...)
+		_ = base
+		fox.WrapF(func(w http.ResponseWriter, r *http.Request) { check("WrapF", fox.ParamsFromContext(r.Context())) })(c)
+		fox.WrapH(http.HandlerFunc(func(w http.ResponseWriter, r *http.Request) { check("WrapH", fox.ParamsFromContext(r.Context())) }))(c)
+		var cl fox.Params
+		for p := range c.Clone().Params() {
+			cl = append(cl, p)
+		}
+		check("Clone", cl)
 	}
 	LastServed = o
 }
@@ -32,9 +64,18 @@ var Rec = func(c fox.Context) {
 var pathSegs = []string{"a", "b", "ab", "abc", "{x}", "{y}", "a{x}", "ab{y}", "*{w}", "*{v}", "b*{w}", "a*{v}", "c", "{x}"}
 var hostLabels = []string{"a", "b", "ab", "{h}", "{g}", "a{h}", "example", "com", "c"}
 
+// static segments / labels made of the less common legal bytes: bytes sorting before '*' and '/',
+// between the digits and the letters, upper case, and after 'z' (edge order inside a node depends on them)
+var oddSegs = []string{"$m", "!a", "(x)", "'q", "&", "+p", ",", ";s", "=", "~z", "-a", ".b", "_", "A", "Z9", "0", "$", "!", "%41", "a$", "{x}", "*{w}", "a", "$m{x}", "(*{w}"}
+var oddLabels = []string{"A", "Ex-9", "a-b", "0", "9z", "API", "{h}", "a", "x-{g}"}
+
 // Pattern draws a random (usually valid) pattern. hostPct = probability of a hostname.
 func Pattern(r *hx.Rand, hostPct int) string {
 	var sb strings.Builder
+	pathSegs, hostLabels := pathSegs, hostLabels
+	if r.Pct(12) {
+		pathSegs, hostLabels = oddSegs, oddLabels
+	}
 	if r.Pct(hostPct) {
 		n := r.Range(1, 3)
 		for i := 0; i < n; i++ {
@@ -59,7 +100,8 @@ func Pattern(r *hx.Rand, hostPct int) string {
 	return sb.String()
 }
 
-var values = []string{"a", "b", "ab", "abc", "x", "c", "ba", "1", "a", "b", "ab", "abc", "x", "c", "ba", "1", "*abc", "*", "{z}", "a*b", "{", "ab*"}
+var values = []string{"a", "b", "ab", "abc", "x", "c", "ba", "1", "a", "b", "ab", "abc", "x", "c", "ba", "1", "*abc", "*", "{z}", "a*b", "{", "ab*",
+	"$other", "!", "(", "A", "Z", "~", "-", "$m", "0"}
 
 // Instantiate replaces wildcards of a pattern by values; catch-alls get 1-3 segments.
 func Instantiate(r *hx.Rand, pat string, inHost bool) string {
